@@ -374,32 +374,46 @@ func E1Renderers(c *core.Ctx, r *core.Report) {
 
 // E1ContextDraws: drawing through a Context does not rewrite the dash array shared with pushed states.
 func E1ContextDraws(c *core.Ctx, r *core.Report) {
-	r.Rule("E1.ctx-dash", "(*Path).checkDash and dashCanonical, through which Context.DrawPath passes Style.Dashes (an array shared with every state saved by Push), write no memory reachable from that array")
+	r.Rule("E1.ctx-dash", "(*Path).checkDash, dashCanonical and ScaleDash, through which Context.DrawPath passes Style.Dashes (an array shared with every state saved by Push), write no memory reachable from that array")
 	a := newEffects(c, r)
-	roots := []*ssa.Function{c.SSAFunc("", "Path.checkDash"), c.SSAFunc("", "dashCanonical")}
+	roots := []*ssa.Function{c.SSAFunc("", "Path.checkDash"), c.SSAFunc("", "dashCanonical"), c.SSAFunc("", "ScaleDash")}
 	a.solve(roots)
 	a.reportEffects(r, "E1.ctx-dash", roots[0], nil, "argument", "d")
 	a.reportEffects(r, "E1.ctx-dash", roots[1], nil, "argument", "d")
-	// DrawPath hands the dash array only to checkDash and to the renderer
+	a.reportEffects(r, "E1.ctx-dash", roots[2], nil, "argument", "d")
+	// DrawPath hands the shared array (the Dashes field of the style) only to the functions analysed above
+	// and to len()
 	p := c.MustPkg("")
+	info := p.TypesInfo
 	fd := core.MustFuncDecl(p, "Context.DrawPath")
-	okUse := true
+	analysed := map[string]bool{"checkDash": true, "dashCanonical": true, "ScaleDash": true}
+	bad := ""
 	ast.Inspect(fd.Body, func(n ast.Node) bool {
-		if call, ok := n.(*ast.CallExpr); ok {
-			for _, arg := range call.Args {
-				if id, ok := core.Unparen(arg).(*ast.Ident); ok && id.Name == "dashes" {
-					if f := core.CalleeOf(p.TypesInfo, call); f == nil || f.Name() != "checkDash" {
-						okUse = false
-					}
-				}
+		call, ok := n.(*ast.CallExpr)
+		if !ok {
+			return true
+		}
+		for _, arg := range call.Args {
+			se, ok := core.Unparen(arg).(*ast.SelectorExpr)
+			if !ok || se.Sel.Name != "Dashes" {
+				continue
+			}
+			if s := info.Selections[se]; s == nil || s.Kind() != types.FieldVal {
+				continue
+			}
+			if id, ok := call.Fun.(*ast.Ident); ok && (id.Name == "len" || id.Name == "cap") {
+				continue
+			}
+			if f := core.CalleeOf(info, call); f == nil || !analysed[f.Name()] {
+				bad = c.Src(call)
 			}
 		}
 		return true
 	})
-	if okUse {
-		r.OK("E1.ctx-dash", "canvas.Context.DrawPath|dash array uses", c.Pos(fd.Pos()), "passed to checkDash only")
+	if bad == "" {
+		r.OK("E1.ctx-dash", "canvas.Context.DrawPath|dash array uses", c.Pos(fd.Pos()), "handed to checkDash, dashCanonical, ScaleDash (analysed above) and len only")
 	} else {
-		r.Fail("E1.ctx-dash", "canvas.Context.DrawPath|dash array uses", c.Pos(fd.Pos()), "the shared dash array is handed to a function other than checkDash")
+		r.Fail("E1.ctx-dash", "canvas.Context.DrawPath|dash array uses", c.Pos(fd.Pos()), fmt.Sprintf("the shared dash array is handed to `%s`, whose effects on it are not analysed", bad))
 	}
 }
 
